@@ -102,7 +102,7 @@ DivFields(P, A, r, predRet) ==
        [] f = "keepC" -> P.keepC # A.keepC
        [] f = "now" -> P.now # A.now
        [] f = "pc" -> r.actor \in DOMAIN P.pc /\ P.pc[r.actor] # A.pc[r.actor]
-       [] f = "qlen" -> Len(P.queue) # r.s.qlen
+       [] f = "qlen" -> Len(P.queue) + r.unb # r.s.qlen   \* (unb = 1: a sender blocked on the full queue pushed during this step; its own record follows)
        [] f = "chlen" -> Len(P.chan) # r.s.chlen
        [] f = "buf" -> [i \in DOMAIN P.buf |-> Len(P.buf[i])] # r.s.buf
        [] f = "ack" -> \E n \in DOMAIN P.ack : P.ack[n] # A.ack[n]
